@@ -93,17 +93,35 @@ def run_history(ctx, case, check=True):
         tk = None
         orig_init = QC.QuicConnection.__init__
 
+        absent = case.get("limit_absent", False)  # the peer does not send active_connection_id_limit at all: the default is 2 (RFC 9000 18.2)
+        if absent:
+            limit = 2
+        orig_ser = QC.QuicConnection._serialize_transport_parameters
+
         def patched(self, *a, **k):
             orig_init(self, *a, **k)
             is_client = self._is_client
             if (role == "server" and is_client) or (role == "client" and not is_client):
                 self._local_active_connection_id_limit = limit
+                self._verif_is_peer = True
+
+        def ser(self):
+            if absent and getattr(self, "_verif_is_peer", False):
+                keep = self._local_active_connection_id_limit
+                self._local_active_connection_id_limit = None
+                try:
+                    return orig_ser(self)
+                finally:
+                    self._local_active_connection_id_limit = keep
+            return orig_ser(self)
 
         QC.QuicConnection.__init__ = patched
+        QC.QuicConnection._serialize_transport_parameters = ser
         try:
             tk = Takeover(role)
         finally:
             QC.QuicConnection.__init__ = orig_init
+            QC.QuicConnection._serialize_transport_parameters = orig_ser
         m = Model(tk, limit)
         cls = set()
         dead = [False]
@@ -394,7 +412,7 @@ def histories(ctx, examples, shard, check=True):
     from hypothesis import strategies as st
     from vlib.harness import run_hypothesis
 
-    strat = st.fixed_dictionaries({"kind": st.just("cid"), "role": st.sampled_from(["server", "client"]), "limit": st.sampled_from([2, 3, 4, 8, 8, 16]), "ops": ops_strategy()})
+    strat = st.fixed_dictionaries({"kind": st.just("cid"), "role": st.sampled_from(["server", "client"]), "limit": st.sampled_from([2, 3, 4, 8, 8, 16]), "limit_absent": st.sampled_from([False, False, False, False, True]), "ops": ops_strategy()})
 
     def body(ctx, case):
         run_history(ctx, case, check=check)
